@@ -273,7 +273,36 @@ def run(cx, rep):
         rep.ob("C08.2", "TplLitTypeItem::OneOf", bool(one) and "BTreeSet<" in one[0]["fields"][0]["ty"], "template alternatives must be an ordered set", "%s:%s" % (tp["file"], tp["line"]))
     # ---------------------------------------------------------------- C08.3
     rep.rule("C08.3", "hoist keys cover every field of every variant")
-    convs = [f for f in F.fns.values() if f.impl_self and re.match(r"^print::printer::Printable\w+Key$", f.impl_self) and (f.name or "").startswith("from_") and f.id in F.hir]
+    # the hoist-key types, by role: the key type of the printer's table of hoisted expressions (a map whose values hold
+    # an emitted `Expr`) and the local types it is built from - whatever module a refactoring keeps them in
+    key_adts = set()
+    for gid, a in F.adts.items():
+        if not gid.startswith("print::"):
+            continue
+        for v in a["variants"]:
+            for fl in v["fields"]:
+                m_ = re.match(r"^std::collections::(?:BTreeMap|HashMap)<([\w:]+), (.*)>$", fl["ty"])
+                if not m_ or m_.group(1) not in F.adts:
+                    continue
+                val = m_.group(2)
+                # the value holds an emitted expression: directly, in a tuple, or as a field of a local record type
+                holds = "swc_ecma_ast::Expr" in val or any(
+                    "swc_ecma_ast::Expr" in f2["ty"] for o_, a2 in F.adts.items() if re.search(r"(?<![\w:])%s(?![\w])" % re.escape(o_), val)
+                    for v2 in a2["variants"] for f2 in v2["fields"])
+                if holds:
+                    key_adts.add(m_.group(1))
+    work = list(key_adts)
+    while work:
+        k_ = work.pop()
+        for v in F.adts[k_]["variants"]:
+            for fl in v["fields"]:
+                for other in F.adts:
+                    if other.startswith("print::") and other not in key_adts and re.search(r"(?<![\w:])%s(?![\w])" % re.escape(other), fl["ty"]):
+                        key_adts.add(other)
+                        work.append(other)
+    rep.floor("C08.3", "hoist-key types", len(key_adts), 2)
+    convs = [f for f in F.fns.values() if f.impl_self in key_adts and f.id in F.hir and f.kind == "AssocFn" and len(f.inputs or []) == 1
+             and (f.inputs[0] or "").startswith("&ast::") and (f.output or "") in key_adts]
     rep.floor("C08.3", "Printable*Key converters", len(convs), 4)
     n_arms = 0
     for f in sorted(convs, key=lambda x: x.id):
@@ -338,7 +367,7 @@ def run(cx, rep):
                        sample={"converter": f.name, "source": pty, "fields_read": sorted(read)})
     rep.floor("C08.3", "converter arms", n_arms, 26)
     for i in F.impls:
-        if re.match(r"^print::printer::Printable\w+Key$", i["self"]) and i.get("trait") in ("std::cmp::PartialEq", "std::cmp::Ord"):
+        if i["self"] in key_adts and i.get("trait") in ("std::cmp::PartialEq", "std::cmp::Ord"):
             rep.ob("C08.3", "derived/%s/%s" % (i["self"].rsplit("::", 1)[-1], i["trait"].rsplit("::", 1)[-1]), bool(i.get("derived")),
                    "%s for %s is hand-written: the hoist key must compare all of its fields" % (i["trait"], i["self"]), "%s:%s" % (i["file"], i["line"]))
     # ---------------------------------------------------------------- C08.5
